@@ -127,7 +127,16 @@ fn created_message(ctx: &mut Ctx, pool: &PoolSigner, rng: &mut Rng, i: u64) {
     // 0/1: SignedMessage::create with a chosen validity, 2: ProvisioningCms, 3: PublicationCms
     let (bytes, entry): (Vec<u8>, Entry) = match which {
         0 | 1 => {
-            let nb = T0 + rng.range(0, 1_000_000) as i64 - 500_000;
+            // mostly around "now", but also where the X.509 time encoding
+            // switches between UTCTime and GeneralizedTime (1950 / 2050)
+            let era: i64 = match rng.below(8) {
+                0 => 2_524_608_000 - 30,            // seconds before 2050-01-01
+                1 => 2_524_608_000 + 86_400 * 100,  // April 2050
+                2 => 2_556_144_000 - 30,            // seconds before 2051-01-01
+                3 => -631_152_000 - 30,             // seconds before 1950-01-01
+                _ => T0,
+            };
+            let nb = era + rng.range(0, 1_000_000) as i64 - if era == T0 { 500_000 } else { 0 } - if era != T0 && rng.bool() { 1_000_000 } else { 0 };
             let len = *rng.pick(&[1i64, 2, 60, 600, 86_400, 400 * 86_400]);
             let validity = Validity::new(time(nb), time(nb + len));
             requested = Some((nb, nb + len));
@@ -279,6 +288,12 @@ enum Tamper {
     None,
     DigestOfOtherContent,
     DigestBitFlip,
+    /// the attribute holds only a prefix of the right digest (16, 31 or 0 octets)
+    DigestTruncated16,
+    DigestTruncated31,
+    DigestEmpty,
+    /// the right digest followed by one more octet
+    DigestExtended,
     SigOtherKey,
     SigCtx0,
     SigOverContent,
@@ -492,6 +507,14 @@ fn build(pool: &PoolSigner, m: &Msg) -> BuiltMsg {
         Tamper::DigestBitFlip => {
             let mut d = good.clone();
             d[31] ^= 1;
+            d
+        }
+        Tamper::DigestTruncated16 => good[..16].to_vec(),
+        Tamper::DigestTruncated31 => good[..31].to_vec(),
+        Tamper::DigestEmpty => Vec::new(),
+        Tamper::DigestExtended => {
+            let mut d = good.clone();
+            d.push(0);
             d
         }
         _ => good.clone(),
@@ -930,7 +953,7 @@ fn round_msgs(rng: &mut Rng, round: u64) -> Vec<Msg> {
         }
     }
     // ---- single violations of the CMS layer, also with long attributes
-    for t in [Tamper::DigestOfOtherContent, Tamper::DigestBitFlip, Tamper::SigOtherKey, Tamper::SigCtx0, Tamper::SigOverContent, Tamper::MissingDigest, Tamper::DupDigestWrongSecond, Tamper::NoCrl] {
+    for t in [Tamper::DigestOfOtherContent, Tamper::DigestBitFlip, Tamper::DigestTruncated16, Tamper::DigestTruncated31, Tamper::DigestEmpty, Tamper::DigestExtended, Tamper::SigOtherKey, Tamper::SigCtx0, Tamper::SigOverContent, Tamper::MissingDigest, Tamper::DupDigestWrongSecond, Tamper::NoCrl] {
         for total in [None, Some(128usize), Some(300)] {
             k += 1;
             let mut m = next(rng, ENTRIES[k % 4], "tamper");
